@@ -1,10 +1,10 @@
 """C18 plan (see lib/plan.py for the format)."""
-from plan import R, D, stages
+from plan import R, D, T, stages
 
 PLAN = dict(
     **stages(
-        quick=[(R, "quick", 16), (D, "small", 16)],
-        thorough=[(R, "thorough", 16), (D, "quick", 16)],
+        quick=[(R, "quick", 16), (D, "small", 16), (T, "small", 16)],
+        thorough=[(R, "thorough", 16), (D, "quick", 16), (T, "quick", 16)],
     ),
     rule=("cases are (a) generated names with 0-4 '-', empty parts, 'nb' inside the base, several 'nb' in the "
           "version, leading zeros, revisions of up to 18 digits and non-ASCII text, a quarter of them with a "
